@@ -8,9 +8,10 @@ import (
 
 func TestMain(m *testing.M) {
 	lab.Quiet()
+	CaptureLog()
 	RegisterProbe()
 	lab.Assume("the probe plugin and the terminal stub are trusted observers; the in-process part drives plugins.BuildChain directly with an httptest recorder as client (no http.Server framing), the startup clause and a black-box order witness run against the real binary")
-	lab.Assume("positions of `logging` and `gzip` are not observed directly (they leave no order-dependent mark on request or response); they take part in every chain so that their wrappers cannot disturb order or gating of the observable elements")
+	lab.Assume("the position of `logging` is observed through its access log: the process-global Helios logger is pointed at a pipe (os.Stdout swapped for the duration of one logging.Init call) and the lines carrying a request's unique URL path are counted - one per `logging` instance that saw the request; in the binary runs the lines are read from the captured process output. The position of `gzip` is not observed directly (it leaves no order-dependent mark); it takes part in every chain so that its wrapper cannot disturb order or gating of the observable elements")
 	lab.Assume("gzip numeric options are written as YAML floats in this check; whether YAML integers are accepted is C18's subject")
 	lab.Main(m, "C17")
 }
